@@ -85,7 +85,7 @@ LEAF_TYPES = [
     "N", "TD", "TDp", "TDn", "HasX", "SupportsClose", "type",
     "Literal[1]", "Literal[True]", 'Literal["a"]', "Literal[0, 1]", "Literal[E.a]", 'Literal[b"a"]',
     "Literal[None]", 'Literal[1, "a"]', "Literal[E.a, E.b]", "tuple[()]",
-    "Rev[int, str]", "Rev[str, int]", "Fwd[int, str]", "IntKeyed[str]", "LS[int]", "FSub", "ISub", "Perm",
+    "Rev[int, str]", "Rev[str, int]", "Fwd[int, str]", "IntKeyed[str]", "LS[int]", "FSub", "ISub", "Perm", "Dyn.Inner",
     # unions of ten or more members (pyanalyze switches to an indexed lookup there), with literals that are equal
     # across types in both orders
     "Literal[0, 1, 2, 3, 4, 5, 6, 7, 8, False, True]", 'Literal[False, True, 0, 1, 2, 3, 4, 5, 6, 7, 8, "a"]',
